@@ -19,7 +19,7 @@ Fixpoint src_stmt (st : stmt) : bool :=
 with src_block (b : block) : bool :=
   match b with BNil => true | BCons st r => src_stmt st && src_block r end
 with src_blocks (h : blocks) : bool :=
-  match h with HNil => true | HCons b r => src_block b && src_blocks r end.
+  match h with HNil => true | HCons _ b r => src_block b && src_blocks r end.
 
 (* intermediate programs: flags drawn from P, loops without else, finally clauses without jumps *)
 Fixpoint wf_cond (P : flag -> bool) (c : cond) : bool :=
@@ -36,7 +36,7 @@ Fixpoint wf_stmt (P : flag -> bool) (st : stmt) : bool :=
 with wf_block (P : flag -> bool) (b : block) : bool :=
   match b with BNil => true | BCons st r => wf_stmt P st && wf_block P r end
 with wf_blocks (P : flag -> bool) (h : blocks) : bool :=
-  match h with HNil => true | HCons b r => wf_block P b && wf_blocks P r end.
+  match h with HNil => true | HCons _ b r => wf_block P b && wf_blocks P r end.
 
 Lemma wf_bapp P a b : wf_block P a = true -> wf_block P b = true -> wf_block P (bapp a b) = true.
 Proof.
@@ -83,7 +83,7 @@ Proof.
   - intros _; reflexivity.
   - intros st IH1 r IH2 H; simpl in H |- *. apply andb_true_iff in H; destruct H as [A B]. rewrite (IH1 A), (IH2 B). reflexivity.
   - intros _; reflexivity.
-  - intros b IH1 r IH2 H; simpl in H |- *. apply andb_true_iff in H; destruct H as [A B]. rewrite (IH1 A), (IH2 B). reflexivity.
+  - intros a b IH1 r IH2 H; simpl in H |- *. apply andb_true_iff in H; destruct H as [A B]. rewrite (IH1 A), (IH2 B). reflexivity.
 Qed.
 
 Lemma wf_clean P : (forall f, P f = true -> ckind f = false) ->
@@ -113,7 +113,7 @@ Proof.
   - intros _; reflexivity.
   - intros st IH1 r IH2 H; simpl in H |- *. apply andb_true_iff in H; destruct H as [A B]. rewrite (IH1 A), (IH2 B). reflexivity.
   - intros _; reflexivity.
-  - intros b IH1 r IH2 H; simpl in H |- *. apply andb_true_iff in H; destruct H as [A B]. rewrite (IH1 A), (IH2 B). reflexivity.
+  - intros a b IH1 r IH2 H; simpl in H |- *. apply andb_true_iff in H; destruct H as [A B]. rewrite (IH1 A), (IH2 B). reflexivity.
 Qed.
 
 Lemma wf_rclean P : (forall f, P f = true -> Nat.eqb f rflag = false) ->
@@ -143,7 +143,7 @@ Proof.
   - intros _; reflexivity.
   - intros st IH1 r IH2 H; simpl in H |- *. apply andb_true_iff in H; destruct H as [A B]. rewrite (IH1 A), (IH2 B). reflexivity.
   - intros _; reflexivity.
-  - intros b IH1 r IH2 H; simpl in H |- *. apply andb_true_iff in H; destruct H as [A B]. rewrite (IH1 A), (IH2 B). reflexivity.
+  - intros a b IH1 r IH2 H; simpl in H |- *. apply andb_true_iff in H; destruct H as [A B]. rewrite (IH1 A), (IH2 B). reflexivity.
 Qed.
 
 (* ---- flags of the passes ------------------------------------------------------------------------ *)
@@ -203,7 +203,7 @@ Proof.
     pose proof (IH1 A f k) as X1. destruct (brk_stmt f k st) as [[st' k1] u1].
     pose proof (IH2 B f k1) as X2. destruct (brk_block f k1 r) as [[r' k2] u2]. simpl in *. apply jfree_bapp; assumption.
   - intros _ f k; reflexivity.
-  - intros b IH1 r IH2 H f k; simpl in H |- *. apply andb_true_iff in H; destruct H as [A B].
+  - intros a b IH1 r IH2 H f k; simpl in H |- *. apply andb_true_iff in H; destruct H as [A B].
     pose proof (IH1 A f k) as X1. destruct (brk_block f k b) as [[b' k1] u1].
     pose proof (IH2 B f k1) as X2. destruct (brk_blocks f k1 r) as [[r' k2] u2]. simpl in *. rewrite X1, X2. reflexivity.
 Qed.
@@ -242,7 +242,7 @@ Proof.
     assert (J : jfree_block (bapp st' r') = true) by (apply jfree_bapp; assumption).
     destruct cur; simpl; rewrite J; reflexivity.
   - intros _ c k u; reflexivity.
-  - intros b IH1 r IH2 H c k u; simpl in H |- *. apply andb_true_iff in H; destruct H as [A B].
+  - intros a b IH1 r IH2 H c k u; simpl in H |- *. apply andb_true_iff in H; destruct H as [A B].
     pose proof (IH1 A c k u false) as X1. destruct (cont_block c k u false b) as [[b' k1] u1].
     pose proof (IH2 B c k1 (u || u1)) as X2. destruct (cont_blocks c k1 (u || u1) r) as [[r' k2] u2]. simpl in *. rewrite X1, X2. reflexivity.
 Qed.
@@ -281,7 +281,7 @@ Proof.
     destruct (IH1 A) as [X1 [Y1 Z1]]. destruct (IH2 B) as [X2 Y2].
     rewrite crr_block_cons. simpl. rewrite Z1, place_none, Y1, Y2. simpl. rewrite X1, X2. split; reflexivity.
   - intros _; reflexivity.
-  - intros b IH1 r IH2 H; simpl in H |- *. apply andb_true_iff in H; destruct H as [A B].
+  - intros a b IH1 r IH2 H; simpl in H |- *. apply andb_true_iff in H; destruct H as [A B].
     destruct (IH1 A) as [X1 _]. rewrite X1, (IH2 B). reflexivity.
 Qed.
 
@@ -320,7 +320,7 @@ Proof.
     pose proof (IH1 A f k Pf) as X1. destruct (brk_stmt f k st) as [[st' k1] u1].
     pose proof (IH2 B f k1 Pf) as X2. destruct (brk_block f k1 r) as [[r' k2] u2]. unfold one in *; simpl in *. apply wf_bapp; assumption.
   - intros _ f k Pf; reflexivity.
-  - intros b IH1 r IH2 H f k Pf; simpl in H |- *; unfold one. apply andb_true_iff in H; destruct H as [A B].
+  - intros a b IH1 r IH2 H f k Pf; simpl in H |- *; unfold one. apply andb_true_iff in H; destruct H as [A B].
     pose proof (IH1 A f k Pf) as X1. destruct (brk_block f k b) as [[b' k1] u1].
     pose proof (IH2 B f k1 Pf) as X2. destruct (brk_blocks f k1 r) as [[r' k2] u2]. unfold one in *; simpl in *. rewrite X1, X2. reflexivity.
 Qed.
@@ -366,7 +366,7 @@ Proof.
     assert (W : wf_block P2 (bapp st' r') = true) by (apply wf_bapp; assumption).
     destruct cur; simpl; rewrite ?Pc, W; reflexivity.
   - intros _ c k u Pc; reflexivity.
-  - intros b IH1 r IH2 H c k u Pc; simpl in H |- *; unfold one. apply andb_true_iff in H; destruct H as [A B].
+  - intros a b IH1 r IH2 H c k u Pc; simpl in H |- *; unfold one. apply andb_true_iff in H; destruct H as [A B].
     pose proof (IH1 A c k u false Pc) as X1. destruct (cont_block c k u false b) as [[b' k1] u1].
     pose proof (IH2 B c k1 (u || u1) Pc) as X2. destruct (cont_blocks c k1 (u || u1) r) as [[r' k2] u2]. unfold one in *; simpl in *. rewrite X1, X2. reflexivity.
 Qed.
@@ -413,7 +413,7 @@ Proof.
   - intros st IH1 r IH2 H. simpl in H. apply andb_true_iff in H; destruct H as [A B].
     rewrite crr_block_cons. simpl. apply wf_place; [apply IH1, A | apply IH2, B].
   - intros _; reflexivity.
-  - intros b IH1 r IH2 H; simpl in H |- *; unfold one. apply andb_true_iff in H; destruct H as [A B]. rewrite (IH1 A), (IH2 B). reflexivity.
+  - intros a b IH1 r IH2 H; simpl in H |- *; unfold one. apply andb_true_iff in H; destruct H as [A B]. rewrite (IH1 A), (IH2 B). reflexivity.
 Qed.
 
 (* ---- the side conditions of the composition theorem hold for every source program ----------------------------- *)
